@@ -4,7 +4,7 @@
 import struct
 
 from .architecture import instruction_opcodes
-from .metacommand_impl import get_as_int, describe_int
+from .metacommand_impl import get_as_int, describe_int, wait_for
 from .containers import CaseInsensitiveDict
 from .deferred import Deferred, SizedDeferred, wait
 from .types import Symbol, ParenthesizedExpression, Number, InstructionPointer, Label, CodeBlock
@@ -174,10 +174,10 @@ class RegisterModeOperandStub:
 
         if isinstance(operand, operators.deferred):
             # Relative deferred
-            return 0o77, SizedDeferred[bytes](2, lambda: struct.pack("<H", wait(operand.operand.resolve(state) - state["rel_address"] - 2) % (2 ** 16)))
+            return 0o77, SizedDeferred[bytes](2, lambda: struct.pack("<H", wait_for(operand, operand.operand.resolve(state) - state["rel_address"] - 2) % (2 ** 16)))
 
         # Relative
-        return 0o67, SizedDeferred[bytes](2, lambda: struct.pack("<H", wait(operand.resolve(state) - state["rel_address"] - 2) % (2 ** 16)))
+        return 0o67, SizedDeferred[bytes](2, lambda: struct.pack("<H", wait_for(operand, operand.resolve(state) - state["rel_address"] - 2) % (2 ** 16)))
 
 
 class FP11RMOperandStub(RegisterModeOperandStub):
@@ -252,7 +252,7 @@ class OffsetOperandStub:
             fixup_label(operand)
 
         def fn():
-            offset = wait(operand.resolve(state) - state["rel_address"])
+            offset = wait_for(operand, operand.resolve(state) - state["rel_address"])
             error = False
             if self.unsigned and offset > 0:
                 if isinstance(operand, Symbol) and isinstance(operand.locate_definition(state), Label):
@@ -316,7 +316,7 @@ class ImmediateOperandStub:
 
         def fn():
             bitness = len(self.bit_indexes)
-            value = wait(operand.resolve(state))
+            value = wait_for(operand, operand.resolve(state))
             if self.unsigned and value < 0:
                 reports.error(
                     "value-out-of-bounds",
